@@ -820,20 +820,39 @@ impl<'a> crate::ranger::Store<SignedEntry> for StoreInstance<'a> {
             // insert into latest table, unless the author's head is already newer
             let key = (&e.id().namespace().to_bytes(), &e.id().author().to_bytes());
             let value = (e.timestamp(), e.id().key());
-            let is_newer = match tables.latest_per_author.get(key)? {
+            let (is_newer, head_was_pruned) = match tables.latest_per_author.get(key)? {
                 Some(head) => {
                     let (head_timestamp, head_key) = head.value();
-                    // the head stays unless this entry is newer - or the entry the head names
-                    // was just pruned by this insert (same timestamp, a key that extends ours):
-                    // a head must name an entry that exists.
-                    value >= (head_timestamp, head_key)
-                        || (head_timestamp == e.timestamp()
-                            && tables.records.get((key.0, key.1, head_key))?.is_none())
+                    let is_newer = value >= (head_timestamp, head_key);
+                    // a head must name an entry that exists: an insert with the same timestamp
+                    // at a prefix of the head's key prunes that entry but compares smaller
+                    let pruned = !is_newer
+                        && head_timestamp == e.timestamp()
+                        && tables.records.get((key.0, key.1, head_key))?.is_none();
+                    (is_newer, pruned)
                 }
-                None => true,
+                None => (true, false),
             };
             if is_newer {
                 tables.latest_per_author.insert(key, value)?;
+            } else if head_was_pruned {
+                // the head becomes the greatest (timestamp, key) among the entries the author still
+                // has (the new one included): what rebuilding the table from the records gives
+                let bounds =
+                    RecordsBounds::author_prefix(id.namespace(), id.author(), Default::default());
+                let mut best: Option<(u64, Vec<u8>)> = None;
+                for row in tables.records.range(bounds.as_ref())? {
+                    let (row_key, row_value) = row?;
+                    let candidate = (row_value.value().0, row_key.value().2.to_vec());
+                    if best.as_ref().is_none_or(|best| candidate > *best) {
+                        best = Some(candidate);
+                    }
+                }
+                if let Some((timestamp, head_key)) = best {
+                    tables
+                        .latest_per_author
+                        .insert(key, (timestamp, head_key.as_slice()))?;
+                }
             }
             Ok(())
         })
